@@ -1329,4 +1329,84 @@ theorem calm_finishM {C : Cfg} (w : WF C) (w2 : WF2 C) (x : St) (dt : ℚ) (hdt 
   obtain ⟨r2, cl⟩ := calm_stepM w w2 (stepM C dt x i1) 0 0 dt i2 r1' (le_of_lt hdt) (le_refl _) (le_refl _)
   exact ⟨r2.weaken (by apply max_le <;> linarith) (by apply max_le <;> linarith), cl (le_refl _)⟩
 
+/-! ### a software failure of the main controller (its recovery time handed to sub-controllers with an open breaker) -/
+
+theorem spreadTimers_length (C : Cfg) (cb : List Bool) (S : ℚ) (t : List ℚ) : (spreadTimers C cb S t).length = t.length := by
+  unfold spreadTimers
+  have key : ∀ (ns : List Nat) (x : List ℚ),
+      (ns.foldl (fun t n => if gb cb (C.nets.getD n default).cb then t.set n (if gr t n < S then S else gr t n) else t) x).length = x.length := by
+    intro ns
+    induction ns with
+    | nil => intro x; rfl
+    | cons a as ih =>
+      intro x
+      simp only [List.foldl_cons]
+      rw [ih]
+      split_ifs <;> simp
+  exact key _ t
+
+/-- value of every timer after the hand-over: the larger of its own value and `S` if the network's breaker is open,
+unchanged otherwise -/
+theorem spreadTimers_get (C : Cfg) (cb : List Bool) (S : ℚ) (t : List ℚ) (ht : t.length = C.nets.length) (m : Nat) :
+    gr (spreadTimers C cb S t) m =
+      if m < C.nets.length ∧ gb cb (C.nets.getD m default).cb = true then (if gr t m < S then S else gr t m) else gr t m := by
+  unfold spreadTimers
+  have key : ∀ (k : Nat), k ≤ C.nets.length →
+      let r := (List.range k).foldl (fun t n => if gb cb (C.nets.getD n default).cb then t.set n (if gr t n < S then S else gr t n) else t) t
+      r.length = t.length ∧
+      gr r m = if m < k ∧ gb cb (C.nets.getD m default).cb = true then (if gr t m < S then S else gr t m) else gr t m := by
+    intro k
+    induction k with
+    | zero => intro _; exact ⟨rfl, by simp⟩
+    | succ k ih =>
+      intro hk
+      obtain ⟨l1, g1⟩ := ih (by omega)
+      rw [List.range_succ, List.foldl_append]
+      simp only [List.foldl_cons, List.foldl_nil]
+      set r := (List.range k).foldl (fun t n => if gb cb (C.nets.getD n default).cb then t.set n (if gr t n < S then S else gr t n) else t) t with hr
+      by_cases hc : gb cb (C.nets.getD k default).cb = true
+      · rw [if_pos hc]
+        refine ⟨by simp [l1], ?_⟩
+        by_cases hmk : m = k
+        · have gk : gr r k = gr t k := by
+            have := g1; rw [hmk] at this; rw [this]; simp
+          rw [hmk, gr_set_self _ _ _ (by rw [l1, ht]; omega), gk]
+          exact (if_pos (show k < k + 1 ∧ gb cb (C.nets.getD k default).cb = true from ⟨by omega, hc⟩)).symm
+        · rw [gr_set_ne _ _ _ _ (fun e => hmk e.symm), g1]
+          by_cases hm : m < k
+          · have : m < k + 1 := by omega
+            simp [hm, this]
+          · have : ¬ m < k + 1 := by omega
+            simp [hm, this]
+      · rw [if_neg hc]
+        refine ⟨l1, ?_⟩
+        rw [g1]
+        by_cases hmk : m = k
+        · rw [hmk, if_neg (fun h => absurd h.1 (lt_irrefl k)), if_neg (fun h => hc h.2)]
+        · by_cases hm : m < k
+          · have : m < k + 1 := by omega
+            simp [hm, this]
+          · have : ¬ m < k + 1 := by omega
+            simp [hm, this]
+  exact (key C.nets.length (le_refl _)).2
+
+/-- the hand-over never shortens a running sectioning time -/
+theorem spreadSec_timer_ge (C : Cfg) (s : St) (S : ℚ) (ht : s.timer.length = C.nets.length) (m : Nat) :
+    gr s.timer m ≤ gr (spreadSec C s S).timer m := by
+  show gr s.timer m ≤ gr (spreadTimers C s.cbOpen S s.timer) m
+  rw [spreadTimers_get C s.cbOpen S s.timer ht m]
+  split_ifs with h1 h2
+  · exact le_of_lt h2
+  · exact le_refl _
+  · exact le_refl _
+
+theorem TL.spread {C : Cfg} {s : St} (h : TL C s) (S : ℚ) : TL C (spreadSec C s S) :=
+  h.congr (spreadTimers_length C s.cbOpen S s.timer) rfl
+
+theorem NF.spread {C : Cfg} {s : St} (h : NF C s) (S : ℚ) : NF C (spreadSec C s S) := h.congr rfl rfl
+
+theorem Quad.spread {C : Cfg} {s : St} (q : Quad C s) (S : ℚ) : Quad C (spreadSec C s S) :=
+  ⟨⟨⟨q.triple.both.inv.congr rfl rfl rfl rfl rfl rfl, q.triple.both.inv2.congr rfl rfl rfl rfl⟩, q.triple.sa.congr rfl rfl rfl⟩,
+   q.g.congr rfl rfl rfl rfl⟩
+
 end Relsad.Control
